@@ -177,6 +177,23 @@ def edge_pairs_sharing_face(F, eid):
     return out
 
 
+def edge_cr_stiffness(F, eid, cot=None):
+    """Crouzeix-Raviart (edge based) stiffness matrix of a triangulation: for the two sides e1, e2 of a triangle that meet
+    at a corner with angle t:  L[e1,e2] = L[e2,e1] -= 2 cot t,  L[e1,e1], L[e2,e2] += 2 cot t  (cot == 1 in the uniform variant)."""
+    n = len(eid)
+    L = np.zeros((n, n))
+    for fi, f in enumerate(F):
+        for k in range(3):
+            prev, cur, nxt = int(f[(k - 1) % 3]), int(f[k]), int(f[(k + 1) % 3])
+            e1, e2 = eid[edge_key(prev, cur)], eid[edge_key(cur, nxt)]
+            w = 2.0 * (1.0 if cot is None else cot[fi, k])
+            L[e1, e1] += w
+            L[e2, e2] += w
+            L[e1, e2] -= w
+            L[e2, e1] -= w
+    return L
+
+
 def cell_graph_laplacian(C):
     """D - A of the cell graph of a tetrahedral mesh: one edge per triangle shared by two cells."""
     n = len(C)
